@@ -1134,3 +1134,30 @@ Proof.
   unfold get_field, default_pval; cbn [o_oneofs o_cells]. rewrite nth_error_map, F. cbn [option_map]. unfold new_cell.
   destruct (f_shape fd) eqn:S; destruct (f_ty fd) as [k|m]; cbn; try reflexivity; rewrite nth_repeat_None; reflexivity.
 Qed.
+
+(* new(T): a fresh object in which nothing is populated; nothing else changes *)
+Theorem new_message_is_empty : forall sch h mid,
+  let h' := h ++ [HObj (new_obj sch mid)] in
+  let E := PMsg mid (Some (length h)) in
+  step sch h (ONew mid) = (h', E) /\
+  (forall id o, get_obj h id = Some o -> get_obj h' id = Some o) /\
+  (forall f fd, field_of sch mid f = Some fd -> step sch h' (OHas E f) = (h', PBool false)) /\
+  step sch h' (ORange E) = (h', PRange []) /\
+  step sch h' (OIsValid E) = (h', PBool true).
+Proof.
+  intros sch h mid h' E. subst h' E. split; [reflexivity|]. split; [intros id o G; apply get_obj_app; exact G|].
+  cbn [step]. rewrite recv_obj_fresh. split; [|split; [|reflexivity]].
+  - intros f fd F. rewrite F, (has_field_new _ _ _ _ F). reflexivity.
+  - rewrite range_from_new. reflexivity.
+Qed.
+
+(* NewField / NewElement / NewValue allocate at the end of the heap: no existing object changes *)
+Theorem new_values_are_fresh : forall sch h o,
+  match o with ONewField _ _ | OLNewElement _ | OMNewValue _ => True | _ => False end ->
+  forall id ob, get_obj h id = Some ob -> get_obj (fst (step sch h o)) id = Some ob.
+Proof.
+  intros sch h o Ho id ob G. destruct o; try destruct Ho; cbn [step]; unfold halloc;
+    repeat match goal with
+           | |- context [match ?x with _ => _ end] => destruct x
+           end; cbn [fst]; try exact G; apply get_obj_app; exact G.
+Qed.
